@@ -142,6 +142,12 @@ def impl_slots(case):
         from pyrates.backend.fortran.fortran_backend import FortranBackend
         rng = tuple(case["blocked"]) if case["blocked"] else FortranBackend._AUTO_BLOCKED_PAR_RANGE
         return dict(out=FortranBackend._auto_param_indices(None, tuple(range(case["n"])), rng), rng=list(rng))
+    if case["kind"] == "labels2":
+        from pyrates.backend.parser import get_unique_label
+        d, out = dict(case["table"]), []
+        for l in case["requests"]:
+            r, d = get_unique_label(l, d); out.append(r)
+        return dict(out=out, table=[[k, v] for k, v in d.items()])
     from pyrates.backend.computegraph import ComputeGraph
     stub = types.SimpleNamespace(_node_names=dict(case["table"]))
     out = [ComputeGraph._generate_unique_label(stub, l) for l in case["requests"]]
@@ -162,7 +168,7 @@ def gen_case(rng, cid, n=None, compile_=False, inexact=False):
     for s in states:                                                  # state variables anywhere in the declaration
         decl.insert(rng.randrange(len(decl) + 1) if rng.random() < 0.5 else 0, s)
     val = (lambda: str(Fr(rng.choice([k for k in range(-16, 17) if k]), 8))) if not inexact else \
-          (lambda: rng.choice(["1/10", "3/10", "-7/100", "1/3", "1/10000000", "123456789/1000"]))
+          (lambda: rng.choice(["1/10", "3/10", "-7/100", "1/5", "1/10000000", "123456789/1000"]))   # decimal literals that are not binary32 values
     unused = set(rng.sample(names, rng.choice([0, 0, 0, 1, 2]))) if n > 2 else set()
     use = [p for p in names if p not in unused]
     rng.shuffle(use)                                                  # order of first use != declaration order
@@ -379,19 +385,29 @@ Definition sl_eqb (a b : list string) := if list_eq_dec string_dec a b then true
 E2_GEN
 Definition ok_closed (c : nat * (Z * Z) * list Z) := let '(n, r, out) := c in zl_eqb (slots n) out.
 E2_LAB
+E2_LB2
 """
 
 E2_GEN = ("From PVG Require Import Gen_auto_param_indices.",
           "Definition ok_gen (c : nat * (Z * Z) * list Z) := let '(n, r, out) := c in zl_eqb (auto_param_indices (seq 0 n) r) out.")
+E2_LAB2 = ("From PVG Require Import Gen_get_unique_label.",
+           "Fixpoint requests2 (tab : dict) (ls : list string) : option (list string * dict) :=\n  match ls with [] => Some ([], tab) | l :: ls' =>\n"
+           "  match get_unique_label l tab with None => None | Some (r, t1) =>\n  match requests2 t1 ls' with None => None | Some (rs, t2) => Some (r :: rs, t2) end end end.\n"
+           "Definition ok_lab2 (c : dict * list string * list string * list string) := let '(tab, req, out, keys) := c in\n"
+           "  match requests2 tab req with Some (rs, tab') => sl_eqb rs out && sl_eqb (py_keys tab') keys | None => false end.")
 E2_LAB = ("From PVG Require Import Gen_generate_unique_label.\nFrom PV Require Import LabelGen.",
           "Definition ok_lab (c : dict * list string * list string * list string) := let '(tab, req, out, keys) := c in\n"
           "  match requests tab req with Some (rs, tab') => sl_eqb rs out && sl_eqb (py_keys tab') keys | None => false end.")
 
 def header_e2(ctx):
-    ok, failed, log = build_coq(["LabelGen"])      # LabelGen.v = Gen_generate_unique_label + the request state machine (definitions)
-    lab = not failed
+    ok, failed, log = build_coq(["LabelGen", "Gen_get_unique_label"])   # LabelGen.v = Gen_generate_unique_label + the request state machine
+    lab2 = not any(f.endswith("Gen_get_unique_label.v") for f in failed)
+    lab = not [f for f in failed if not f.endswith("Gen_get_unique_label.v")]
+    if not (lab and lab2):
+        ctx.note(f"E2: label generators not available for validation (failed: {[os.path.basename(f) for f in failed]})")
     gen = not (ctx.proof and set(ctx.proof["failed"]) & {"Gen_auto_param_indices", "PyLib", "Auto"})
-    h = HEADER_E2.replace("E2_IMPORT", (E2_GEN[0] if gen else "") + "\n" + (E2_LAB[0] if lab else ""))
+    h = HEADER_E2.replace("E2_IMPORT", (E2_GEN[0] if gen else "") + "\n" + (E2_LAB[0] if lab else "") + "\n" + (E2_LAB2[0] if lab2 else ""))
+    h = h.replace("E2_LB2", E2_LAB2[1] if lab2 else "Definition ok_lab2 (c : dict * list string * list string * list string) := true.")
     h = h.replace("E2_GEN", E2_GEN[1] if gen else "Definition ok_gen (c : nat * (Z * Z) * list Z) := true.")
     return h.replace("E2_LAB", E2_LAB[1] if lab else "Definition ok_lab (c : dict * list string * list string * list string) := true.")
 
@@ -406,7 +422,8 @@ def e2_streams(ctx):
         tab = {}
         for s in rng.sample(stems + ["x_v3", "r_v2"], rng.randint(0, 4)):
             if s != "t": tab[s] = rng.randint(0, 3)
-        cases.append(dict(kind="labels", table=[[k, v] for k, v in tab.items()], requests=[rng.choice(stems) for _ in range(rng.randint(1, 9))]))
+        cases.append(dict(kind=rng.choice(["labels", "labels", "labels2"]), table=[[k, v] for k, v in tab.items()],
+                          requests=[rng.choice(stems) for _ in range(rng.randint(1, 9))]))
     outs = run_impl(ctx, "c18", "impl_slots", cases, nworkers=1)
     sl = [(c, o) for c, o in zip(cases, outs) if c["kind"] == "slots" and "err" not in o]
     lb = [(c, o) for c, o in zip(cases, outs) if c["kind"] == "labels" and "err" not in o]
@@ -414,12 +431,16 @@ def e2_streams(ctx):
     dflt = [i for i, (c, o) in enumerate(sl) if c["blocked"] is None]
     t2 = clist([f"({clist([cpair(cstr(k), cz(v)) for k, v in c['table']])}, {clist([cstr(s) for s in c['requests']])}, "
                 f"{clist([cstr(s) for s in o['out']])}, {clist([cstr(k) for k, _ in o['table']])})" for c, o in lb])
-    body = (f"Definition s := {t1}.\nDefinition l := {t2}.\nEval vm_compute in (mismatches ok_gen s).\n"
-            "Eval vm_compute in (mismatches ok_closed s).\nEval vm_compute in (mismatches ok_lab l).\n")
+    l2 = [(c, o) for c, o in zip(cases, outs) if c["kind"] == "labels2" and "err" not in o]
+    labterm = lambda pairs: clist([f"({clist([cpair(cstr(k), cz(v)) for k, v in c['table']])}, {clist([cstr(s) for s in c['requests']])}, "
+                                   f"{clist([cstr(s) for s in o['out']])}, {clist([cstr(k) for k, _ in o['table']])})" for c, o in pairs])
+    T = "list (dict * list string * list string * list string)"
+    body = (f"Definition s := {t1}.\nDefinition l : {T} := {t2}.\nDefinition l2 : {T} := {labterm(l2)}.\nEval vm_compute in (mismatches ok_gen s).\n"
+            "Eval vm_compute in (mismatches ok_closed s).\nEval vm_compute in (mismatches ok_lab l).\nEval vm_compute in (mismatches ok_lab2 l2).\n")
     ls = parse_nat_lists(coq_eval(ctx, "c18_e2", header_e2(ctx), body))
-    assert len(ls) == 3, ls
+    assert len(ls) == 4, ls
     crashed = [c for c, o in zip(cases, outs) if "err" in o]
-    bad_tr = [sl[i][0] for i in ls[0]] + [lb[i][0] for i in ls[2]] + crashed
+    bad_tr = [sl[i][0] for i in ls[0]] + [lb[i][0] for i in ls[2]] + [l2[i][0] for i in ls[3]] + crashed
     bad_cf = [(sl[i][0], sl[i][1]) for i in ls[1] if i in dflt]
     dup = [c for c, o in lb if len([r for r in o["out"] if r != "t"]) != len({r for r in o["out"] if r != "t"})]
     return cases, bad_tr, bad_cf, dup
@@ -430,6 +451,8 @@ def check(ctx):
     problem = proof_problem(pr)
     thorough = ctx.tier != "quick"
     n_plain, n_comp = (1200, 200) if thorough else (80, 6)
+    scale = float(os.environ.get("C18_SCALE", "1"))          # for trying out the thorough tier on a loaded machine
+    n_plain, n_comp = max(1, int(n_plain * scale)), max(1, int(n_comp * scale))
     if problem and not thorough:
         n_plain *= 4
     if ctx.replay:
